@@ -376,11 +376,10 @@ impl Features {
         if self.or {
             v.push(if self.or_irrefutable_alt { "or-with-irrefutable-alternative" } else { "or" });
         }
-        if self.rest {
-            v.push("struct-rest");
-        }
-        if self.reordered {
-            v.push("struct-fields-reordered");
+        // one input predicate: "some struct pattern does not list every declared field in
+        // declaration order" (fields omitted with `..`, or listed in another order)
+        if self.rest || self.reordered {
+            v.push("struct-pattern-omits-or-reorders-fields");
         }
         if v.is_empty() {
             "plain".to_string()
@@ -654,7 +653,6 @@ pub fn alphabet(ty: Ty, level: Level) -> Vec<Pat> {
     if level != Level::Full {
         return reduced_alphabet(ty, level);
     }
-    let full = true;
     let mut out: Vec<Pat> = vec![];
     match ty {
         Ty::Bool => {
@@ -663,179 +661,105 @@ pub fn alphabet(ty: Ty, level: Level) -> Vec<Pat> {
         }
         Ty::U8 => {
             out.extend(u8_sub("v"));
-            if full {
-                out.extend(ordered_ors(&[n(0), n(1), n(254), n(255), Pat::Wild]));
-            } else {
-                out.extend([
-                    or2(n(0), n(1)),
-                    or2(n(255), n(254)),
-                    or2(n(0), n(255)),
-                    or2(n(1), n(254)),
-                    or2(n(255), Pat::Wild),
-                ]);
-            }
+            out.extend(ordered_ors(&[n(0), n(1), n(254), n(255), Pat::Wild]));
         }
         Ty::BB => {
-            if full {
-                for p in bool_sub("a") {
-                    for q in bool_sub("b") {
-                        out.push(tup(p.clone(), q));
-                    }
+            for p in bool_sub("a") {
+                for q in bool_sub("b") {
+                    out.push(tup(p.clone(), q));
                 }
-                out.push(Pat::Wild);
-                out.push(var("v"));
-                out.extend(ordered_ors(&[
-                    tup(b(true), b(true)),
-                    tup(b(true), b(false)),
-                    tup(b(false), Pat::Wild),
-                    tup(Pat::Wild, b(true)),
-                    Pat::Wild,
-                ]));
-                out.extend([
-                    tup(or2(b(true), b(false)), b(true)),
-                    tup(b(true), or2(b(true), b(false))),
-                    tup(or2(b(true), b(false)), or2(b(false), b(true))),
-                    tup(var("a"), or2(b(true), b(false))),
-                ]);
-            } else {
-                out.extend([
-                    tup(b(true), b(true)),
-                    tup(b(true), b(false)),
-                    tup(b(false), b(true)),
-                    tup(b(false), b(false)),
-                    tup(b(true), Pat::Wild),
-                    tup(Pat::Wild, b(false)),
-                    tup(var("a"), b(true)),
-                    tup(b(false), var("b")),
-                    Pat::Wild,
-                    or2(tup(b(true), b(false)), tup(b(false), Pat::Wild)),
-                    tup(b(true), or2(b(true), b(false))),
-                ]);
             }
+            out.push(Pat::Wild);
+            out.push(var("v"));
+            out.extend(ordered_ors(&[
+                tup(b(true), b(true)),
+                tup(b(true), b(false)),
+                tup(b(false), Pat::Wild),
+                tup(Pat::Wild, b(true)),
+                Pat::Wild,
+            ]));
+            out.extend([
+                tup(or2(b(true), b(false)), b(true)),
+                tup(b(true), or2(b(true), b(false))),
+                tup(or2(b(true), b(false)), or2(b(false), b(true))),
+                tup(var("a"), or2(b(true), b(false))),
+            ]);
         }
         Ty::UB => {
-            if full {
-                for p in u8_sub("a") {
-                    for q in bool_sub("b") {
-                        out.push(tup(p.clone(), q));
-                    }
+            for p in u8_sub("a") {
+                for q in bool_sub("b") {
+                    out.push(tup(p.clone(), q));
                 }
-                out.push(Pat::Wild);
-                out.push(var("v"));
-                out.extend(ordered_ors(&[
-                    tup(n(0), b(true)),
-                    tup(n(255), b(false)),
-                    tup(n(0), Pat::Wild),
-                    tup(Pat::Wild, b(true)),
-                ]));
-                out.extend([
-                    tup(or2(n(0), n(1)), b(true)),
-                    tup(or2(n(254), n(255)), Pat::Wild),
-                    tup(n(0), or2(b(true), b(false))),
-                    tup(var("a"), or2(b(false), b(true))),
-                ]);
-            } else {
-                out.extend([
-                    tup(n(0), b(true)),
-                    tup(n(0), b(false)),
-                    tup(n(255), b(true)),
-                    tup(n(1), Pat::Wild),
-                    tup(Pat::Wild, b(true)),
-                    tup(Pat::Wild, b(false)),
-                    tup(var("a"), b(false)),
-                    tup(n(255), var("b")),
-                    Pat::Wild,
-                    or2(tup(n(0), b(true)), tup(n(255), Pat::Wild)),
-                    tup(or2(n(0), n(255)), b(true)),
-                ]);
             }
+            out.push(Pat::Wild);
+            out.push(var("v"));
+            out.extend(ordered_ors(&[
+                tup(n(0), b(true)),
+                tup(n(255), b(false)),
+                tup(n(0), Pat::Wild),
+                tup(Pat::Wild, b(true)),
+            ]));
+            out.extend([
+                tup(or2(n(0), n(1)), b(true)),
+                tup(or2(n(254), n(255)), Pat::Wild),
+                tup(n(0), or2(b(true), b(false))),
+                tup(var("a"), or2(b(false), b(true))),
+            ]);
         }
         Ty::E => {
-            if full {
-                out.push(en("A", None));
-                for p in bool_sub("p") {
-                    out.push(en("B", Some(p)));
-                }
-                for p in u8_sub("p") {
-                    out.push(en("C", Some(p)));
-                }
-                out.push(Pat::Wild);
-                out.push(var("v"));
-                out.extend(ordered_ors(&[
-                    en("A", None),
-                    en("B", Some(b(true))),
-                    en("B", Some(Pat::Wild)),
-                    en("C", Some(n(0))),
-                    en("C", Some(n(255))),
-                    en("C", Some(Pat::Wild)),
-                ]));
-                out.extend([
-                    en("B", Some(or2(b(true), b(false)))),
-                    en("C", Some(or2(n(0), n(1)))),
-                    en("C", Some(or2(n(255), n(254)))),
-                    en("C", Some(or2(n(0), Pat::Wild))),
-                ]);
-            } else {
-                out.extend([
-                    en("A", None),
-                    en("B", Some(b(true))),
-                    en("B", Some(b(false))),
-                    en("B", Some(var("p"))),
-                    en("C", Some(n(0))),
-                    en("C", Some(n(255))),
-                    en("C", Some(Pat::Wild)),
-                    Pat::Wild,
-                    or2(en("A", None), en("B", Some(Pat::Wild))),
-                    or2(en("B", Some(b(false))), en("C", Some(n(0)))),
-                    en("C", Some(or2(n(0), n(255)))),
-                ]);
+            out.push(en("A", None));
+            for p in bool_sub("p") {
+                out.push(en("B", Some(p)));
             }
+            for p in u8_sub("p") {
+                out.push(en("C", Some(p)));
+            }
+            out.push(Pat::Wild);
+            out.push(var("v"));
+            out.extend(ordered_ors(&[
+                en("A", None),
+                en("B", Some(b(true))),
+                en("B", Some(Pat::Wild)),
+                en("C", Some(n(0))),
+                en("C", Some(n(255))),
+                en("C", Some(Pat::Wild)),
+            ]));
+            out.extend([
+                en("B", Some(or2(b(true), b(false)))),
+                en("C", Some(or2(n(0), n(1)))),
+                en("C", Some(or2(n(255), n(254)))),
+                en("C", Some(or2(n(0), Pat::Wild))),
+            ]);
         }
         Ty::S => {
-            if full {
-                for p in bool_sub("a") {
-                    for q in u8_sub("b") {
-                        out.push(st(Some(p.clone()), Some(q)));
-                    }
+            for p in bool_sub("a") {
+                for q in u8_sub("b") {
+                    out.push(st(Some(p.clone()), Some(q)));
                 }
-                out.extend([
-                    st(Some(b(true)), None),
-                    st(Some(b(false)), None),
-                    st(None, Some(n(0))),
-                    st(None, Some(n(255))),
-                    st(None, None),
-                    st_rev(n(0), b(true)),
-                    st_rev(Pat::Wild, b(false)),
-                    Pat::Wild,
-                    var("v"),
-                ]);
-                out.extend(ordered_ors(&[
-                    st(Some(b(true)), Some(n(0))),
-                    st(Some(b(false)), Some(n(255))),
-                    st(Some(b(true)), Some(Pat::Wild)),
-                    st(Some(Pat::Wild), Some(n(0))),
-                ]));
-                out.extend([
-                    st(Some(or2(b(true), b(false))), Some(n(0))),
-                    st(Some(b(true)), Some(or2(n(0), n(1)))),
-                    st(Some(Pat::Wild), Some(or2(n(254), n(255)))),
-                    st(Some(var("a")), Some(or2(n(0), n(255)))),
-                ]);
-            } else {
-                out.extend([
-                    st(Some(b(true)), Some(n(0))),
-                    st(Some(b(false)), Some(n(0))),
-                    st(Some(b(true)), Some(n(255))),
-                    st(Some(b(true)), Some(Pat::Wild)),
-                    st(Some(Pat::Wild), Some(n(0))),
-                    st(Some(b(false)), None),
-                    st(Some(var("a")), Some(n(255))),
-                    st(Some(b(false)), Some(var("b"))),
-                    Pat::Wild,
-                    or2(st(Some(b(true)), Some(n(0))), st(Some(b(false)), Some(Pat::Wild))),
-                    st(Some(b(true)), Some(or2(n(0), n(255)))),
-                ]);
             }
+            out.extend([
+                st(Some(b(true)), None),
+                st(Some(b(false)), None),
+                st(None, Some(n(0))),
+                st(None, Some(n(255))),
+                st(None, None),
+                st_rev(n(0), b(true)),
+                st_rev(Pat::Wild, b(false)),
+                Pat::Wild,
+                var("v"),
+            ]);
+            out.extend(ordered_ors(&[
+                st(Some(b(true)), Some(n(0))),
+                st(Some(b(false)), Some(n(255))),
+                st(Some(b(true)), Some(Pat::Wild)),
+                st(Some(Pat::Wild), Some(n(0))),
+            ]));
+            out.extend([
+                st(Some(or2(b(true), b(false))), Some(n(0))),
+                st(Some(b(true)), Some(or2(n(0), n(1)))),
+                st(Some(Pat::Wild), Some(or2(n(254), n(255)))),
+                st(Some(var("a")), Some(or2(n(0), n(255)))),
+            ]);
         }
     }
     out
